@@ -169,8 +169,60 @@ def enumerate_programs(kind, L, first_idx, tier="quick"):
                     yield body + [t]
 
 
+def stack_programs():
+    """DUP1..16 / SWAP1..16 on stacks of every depth around the required one (incl. underflow), PC, and the block / call environment opcodes"""
+    from mc import asm
+
+    def dump(nitems):
+        items = []
+        for k in range(nitems):
+            items += [("push", OUT_BASE + 32 * k), "MSTORE"]
+        return items + [("push", 32 * nitems), ("push", OUT_BASE), "RETURN"]
+
+    for n in range(1, 17):
+        for depth in (n - 1, n, n + 1, 17):
+            if depth < 0:
+                continue
+            pushes = []
+            for k in range(depth):
+                pushes += (["PUSH0", "CALLDATALOAD"] if k == 0 else [("push", 0x100 + k)])
+            yield f"DUP{n}@{depth}", asm.assemble(pushes + [f"DUP{n}"] + dump(depth + 1))
+            if depth >= 1:
+                yield f"SWAP{n}@{depth}", asm.assemble(pushes + [f"SWAP{n}"] + dump(depth))
+    env = ["ADDRESS", "ORIGIN", "CALLER", "CALLVALUE", "CALLDATASIZE", "CODESIZE", "RETURNDATASIZE", "COINBASE", "TIMESTAMP", "NUMBER", "DIFFICULTY", "GASLIMIT", "CHAINID", "SELFBALANCE", "BASEFEE", "PC", "MSIZE", "PUSH0"]
+    for op in env:
+        yield op, asm.assemble(["PUSH0", "CALLDATALOAD", "POP", op, op] + dump(2))
+    for k in range(0, 4):
+        yield f"PC@{k}", asm.assemble(["JUMPDEST"] * k + ["PC"] + dump(1))
+
+
+def check_stack(acc):
+    for name, code in stack_programs():
+        spec = {
+            "accounts": {hex(THIS): {"code": code.hex(), "balance": 5}, hex(B1): {"code": "", "balance": 7}},
+            "target": THIS, "caller": ["sym", "caller"], "origin": B2, "value": ["sym", "v"],
+            "calldata": [["sym", "x", 32], ["sym", "y", 32]], "options": {},
+        }
+        grid = list(hdriver.input_grid({"x": 256, "y": 256, "caller": 160, "v": 256}, [0, 1, 2**256 - 1], {"caller": [B1, B2], "v": [0, 1], "y": [0]}))
+        acc.count("programs")
+        try:
+            results = hdriver.run_halmos(spec)
+        except Exception as e:
+            acc.violation(f"crash:stack:{name}", f"halmos raised {type(e).__name__}: {e} on stack/environment program {name}", {"stack": name})
+            continue
+        issues, stats = progcheck.check_program(spec, grid, want_coverage=True, results=results)
+        acc.count("paths", stats["paths"])
+        acc.count("pairs", stats["pairs"])
+        acc.count("inputs", stats["inputs"])
+        for o in stats["outcomes"]:
+            acc.outcome(o)
+        for i in issues[:1]:
+            acc.violation(f"{i.kind}:stack:{name}", f"stack/environment program {name} inputs={fmt_inputs(i.inputs)}: {i.kind}: {i.detail[:300]}", {"stack": name, "inputs": i.inputs})
+    acc.sample({"stack_and_environment_programs": "DUP1..16 / SWAP1..16 at stack depths n-1 (underflow), n, n+1, 17; 18 environment opcodes; PC at 4 positions"})
+
+
 def shards(tier, seed):
-    out = []
+    out = [{"kind": "stack"}]
     for kind, L in bounds(tier):
         n = len(grammar.statements(kind))
         for i in range(n):
@@ -187,6 +239,9 @@ def run_shard(shard, want_coverage=False):
     hdriver.install_logging()
     hdriver.install_uid()
     acc = Acc(max_violations=30)
+    if shard["kind"] == "stack":
+        check_stack(acc)
+        return acc.result()
     if shard["kind"] == "terminators":
         progs = [[t] for t in grammar.TERMINATORS]
         skip_long_terminators = False
@@ -224,6 +279,10 @@ def replay(case):
     hdriver.install_logging()
     hdriver.install_uid()
     acc = Acc()
+    if "stack" in case:
+        check_stack(acc)
+        v = [x for x in acc.result()["violations"] if case["stack"] in x["key"]]
+        return {"violated": bool(v), "obs": [x["what"] for x in v][:3], "key": v[0]["key"] if v else ""}
     stmts = detuple(case["stmts"])
     check_one(acc, stmts, case["layout"], want_coverage=case.get("coverage", False), extra_options=case.get("options"))
     v = acc.result()["violations"]
